@@ -277,6 +277,12 @@
            ! fudge factor of -0.5 for agreement with single sphere case
            asreshape = reshape(cshift(ascatmat, shift = 1), (/ 2, 2 /), &
                 order = (/ 2, 1 /)) * (-0.5)
+           ! SCSMFO's unit vector perpendicular to the scattering plane is
+           ! opposite to Bohren & Huffman's, which calc_scat_field and
+           ! incfield use: the elements that couple the parallel and the
+           ! perpendicular components change sign
+           asreshape(1,2) = -asreshape(1,2)
+           asreshape(2,1) = -asreshape(2,1)
 
            ! calculate scattered fields in spherical coordinates
            call calc_scat_field(kr, phi, asreshape, inc_pol, escat_sph)
@@ -289,6 +295,8 @@
                call incfield(inc_pol(1), inc_pol(2), phi, einc_sph)
                call ms_radial_fields(amn, lmax, theta, phi + euler_gamma, &
                     kr, rad_amplitude)
+               ! same convention for the perpendicular incident component
+               rad_amplitude(2) = -rad_amplitude(2)
                ! order in dot product matters b/c of complex conjugate
                ! again, fudge factor of -0.5 for single sphere agreement
                escat_rad = dot_product(einc_sph, rad_amplitude) * (-0.5)
